@@ -12,7 +12,7 @@ Steps (all in /tmp/wt-main, never in /repo):
 """
 import json, os, shutil, subprocess, sys, time
 
-WT = "/tmp/wt-main"
+WT = os.environ.get("SEED_WT", "/tmp/wt-main")
 NX = "cargo nextest run --workspace --offline --no-fail-fast"
 T = {
  # id-variant: (demo path in worktree, demo command, [(ws, bin, args)])
